@@ -264,6 +264,9 @@ def gen_cxx(md, policy=0):
             w("struct Ev%d : Ev%d { Ev%d(int p = 0, int t = %d) : Ev%d(p, t) {} };" % (e, p, e, e, p))
     w("#define H_EVENTS(X) " + " ".join("X(%d)" % e for e in evs))
     w("#include \"prelude2.hpp\"")
+    flags = sorted({f for _, m in walk(md["root"]) for st in m["states"] for f in st["flags"]})
+    nflags = (max(flags) + 1) if flags else 0
+    w("#define H_FLAGS(X) " + " ".join("X(%d)" % f for f in range(nflags)))
     w("template <class C> struct Def {")
     machines = list(walk(md["root"]))
     # deepest first so that submachine back-end types are complete when used
@@ -275,6 +278,15 @@ def gen_cxx(md, policy=0):
         w("    typedef EvInit initial_event; typedef EvExit final_event;")
         w("    typedef %s active_state_switch_policy;" % POLICIES[policy])
         w("    using history = %s;" % cxx_hist_front(m["hist"]))
+        if path:
+            holder = md["root"]
+            for k in path[:-1]:
+                holder = holder["states"][k]["sub"]
+            hst = holder["states"][path[-1]]
+            if hst["flags"]:
+                w("    typedef mpl::vector<%s> flag_list;" % ", ".join("Flag<%d>" % f for f in hst["flags"]))
+            if hst["defers"]:
+                w("    typedef mpl::vector<%s> deferred_events;" % ", ".join("Ev%d" % e for e in hst["defers"]))
         needs_defer = any(r["act"] == "defer" for r in all_rows(m))
         if needs_defer:
             w("    typedef int activate_deferred_events;")
@@ -410,6 +422,12 @@ def supported(md, cfgname):
     for path, m in walk(md["root"]):
         if base == "back11" and m["irows"]:
             return False      # back11: a machine's own internal_transition_table does not compile (Event& vs const Event)
+        if base == "back11" and any(isinstance(st["kind"], list) and st["kind"][0] == "exitpt" for st in m["states"]):
+            return False      # back11: the const event forwarded by an exit point does not compile against chained rows
+    has_any = any(r["trig"] == "any" for _, m in walk(md["root"]) for r in all_rows(m))
+    has_base = any(p is not None for p in md["parents"])
+    if (has_any or has_base) and base in ("back_fct", "mp11_fct", "mp11_fpa", "back11"):
+        return False          # Kleene / base-class triggers are not honoured (or do not compile: back11 with conflicts) here
     if base == "back_fct":
         ms = list(walk(md["root"]))
         has_compl = any(r["trig"] == "none" for _, m in ms for r in all_rows(m))
@@ -424,6 +442,16 @@ def adapt(md, cfgname):
     if supported(md, cfgname):
         return md
     md2 = copy.deepcopy(md)
+    base = cfgname.split(":")[0]
+    if base in ("back_fct", "mp11_fct", "mp11_fpa", "back11"):
+        # replace Kleene triggers and drop the inheritance between event types
+        md2["parents"] = [None] * len(md2["parents"])
+        for _, m in walk(md2["root"]):
+            for r in all_rows(m):
+                if r["trig"] == "any":
+                    r["trig"] = ["ev", EV_FIRST_USER]      # keep the row (and the states it mentions), with an ordinary trigger
+        if supported(md2, cfgname):
+            return md2
     for _, m in walk(md2["root"]):
         m["irows"] = []
     return md2 if supported(md2, cfgname) else None
